@@ -104,6 +104,16 @@ impl Oracle for C05 {
             }
         }
         if !ok {
+            for alt in &pred.alternatives {
+                if forests_match(&alt.forest, pf, fresh_from) {
+                    ok = true;
+                    chosen = alt.clone();
+                    st.bump("alternative_outcome_accepted");
+                    break;
+                }
+            }
+        }
+        if !ok {
             let cls = classify(&pred, pf, s.pre_forest);
             fails.push(Fail::new(format!("model:{}|{}", cls, call), ctx(&format!("model predicts [{}], observed [{}]", forest_show(&pred.forest), forest_show(pf)))));
             return Verdict { fails, expand: false };
